@@ -57,6 +57,12 @@ def make_device(kind: str, rng=None, *, length_units="um", xi=0.5, gamma=10.0, u
         if terminals:
             terms = [P("source", points=box(0.1 * s, 4.5 * s, center=(-3.0 * s, 0))), P("drain", points=box(0.1 * s, 4.5 * s, center=(3.0 * s, 0)))]
         probe_pts = [(-2.2 * s, 1.5 * s), (2.2 * s, -1.5 * s)]
+    elif kind == "dense_hole":
+        # a densely sampled hole outline (neighbouring vertices ~2e-4 of the hole size apart): with scale = 1e-6 and
+        # length_units = "m" the vertex spacing is a fraction of a nanometre
+        film = P("film", points=box(6.0 * s, 6.0 * s, points=61))
+        holes = [P("hole", points=ellipse(0.3 * s, 0.15 * s, points=2400, angle=25, center=(0.3 * s, -0.2 * s)))]
+        probe_pts = [(-2.0 * s, 2.0 * s), (2.0 * s, -2.0 * s)]
     elif kind == "ring":
         film = P("film", points=circle(2.0 * s, points=41))
         holes = [P("hole", points=circle(0.7 * s, points=21, center=(0.2 * s, 0)))]
@@ -147,6 +153,8 @@ def mesh_zoo(rng, quick=True):
     # the same kind of mesh with coordinates that are small NUMBERS (a film of a few nm stated in metres): every length
     # of the mesh is far below any absolute tolerance
     rd = out[-3][1]
+    out.append(("mirror_image", Mesh.from_triangulation(np.asarray(rd.sites) * np.array([-1.0, 1.0]), np.asarray(rd.elements)), None))
+    out.append(("clockwise_listing", Mesh.from_triangulation(np.asarray(base.sites), np.asarray(base.elements)[:, ::-1], ), None))
     out.append(("tiny_units", Mesh.from_triangulation(np.asarray(rd.sites) * 3e-9, np.asarray(rd.elements)), None))
     return out
 
